@@ -358,3 +358,131 @@ Proof.
     exfalso. pose proof (starts_with_both x y A B) as ->.
     destruct (cmp_component_self y Hy) as [i' E]. congruence.
 Qed.
+
+(* ---------------------------------------------------------------- antisymmetry *)
+
+Definition safe_char (c : ascii) : bool := negb (regex_meta c) || is_sep c.
+
+Lemma wf_safe c : wf_char c = true -> ascii_eqb c c_plus = false -> safe_char c = true.
+Proof. ascii_sweep c. Qed.
+
+Lemma safe_nonsep_nometa c : safe_char c && negb (is_sep c) = true -> regex_meta c = false.
+Proof. ascii_sweep c. Qed.
+
+Lemma split_dotus_chars (q : ascii -> bool) p :
+  forallb q p = true ->
+  Forall (fun x => forallb (fun c => q c && negb (is_sep c)) x = true) (split_dotus p).
+Proof.
+  induction p as [|c r IH]; cbn [split_dotus forallb]; intro H.
+  - repeat constructor.
+  - apply andb_true_iff in H as [Hc Hr]. specialize (IH Hr).
+    destruct (is_sep c) eqn:S; [constructor; [reflexivity|assumption]|].
+    destruct (split_dotus r) as [|h t].
+    + repeat constructor. cbn [forallb]. now rewrite Hc, S.
+    + inversion IH; subst. constructor; [|assumption]. cbn [forallb]. now rewrite Hc, S.
+Qed.
+
+Lemma nometa_of_chars x : forallb (fun c => safe_char c && negb (is_sep c)) x = true -> nometa x.
+Proof.
+  intros H pre d E. apply decomp_some in E as (-> & _). rewrite forallb_app_iff in H.
+  apply andb_true_iff in H as [H _]. clear d.
+  induction pre as [|c pre IH]; [reflexivity|]. cbn [forallb existsb] in *.
+  apply andb_true_iff in H as [Hc H]. now rewrite (safe_nonsep_nometa c Hc), IH.
+Qed.
+
+Lemma safe_components p :
+  forallb wf_char p = true -> mem_ascii c_plus p = false -> Forall nometa (split_dotus p).
+Proof.
+  intros W P.
+  assert (S : forallb safe_char p = true).
+  { induction p as [|c r IH]; [reflexivity|]. cbn [forallb mem_ascii] in *.
+    apply andb_true_iff in W as [Wc Wr]. destruct (ascii_eqb c_plus c) eqn:Ec; [discriminate|].
+    rewrite ascii_eqb_sym in Ec. now rewrite (wf_safe c Wc Ec), IH. }
+  apply split_dotus_chars in S. eapply Forall_impl; [|exact S]. intros x. apply nometa_of_chars.
+Qed.
+
+Lemma notpm_no_plus x : forallb notpm x = true -> mem_ascii c_plus x = false.
+Proof.
+  induction x as [|c r IH]; cbn [mem_ascii forallb]; [reflexivity|]. intro H. apply andb_true_iff in H as [Hc Hr].
+  rewrite IH by assumption. unfold notpm in Hc. apply negb_true_iff, orb_false_iff in Hc as [_ Hc].
+  rewrite ascii_eqb_sym. now rewrite Hc.
+Qed.
+
+Definition good (v : str) : Prop :=
+  wf_name v = true /\ exists p s t, split_version v = Ok (p, s, t) /\ mem_ascii c_plus p = false.
+
+Lemma accepts_good v : accepts v = true <-> good v.
+Proof.
+  unfold accepts, good. split.
+  - intro H. apply andb_true_iff in H as [W H]. split; [assumption|].
+    destruct (split_version v) as [[[p s] t]|]; [|discriminate]. apply negb_true_iff in H. eauto.
+  - intros [W [p [s [t [E P]]]]]. now rewrite W, E, P.
+Qed.
+
+Lemma good_simple x : wf_name x = true -> forallb notpm x = true -> good x.
+Proof.
+  intros W N. split; [assumption|].
+  destruct (split_simple x N) as [E|[c [ds [base [V [_ E]]]]]].
+  - exists x, [], []. split; [assumption|now apply notpm_no_plus].
+  - assert (P : mem_ascii c_plus base = false).
+    { apply notpm_no_plus. rewrite V, forallb_app_iff in N. now apply andb_true_iff in N as [? _]. }
+    destruct E as [E|E]; eauto 6.
+Qed.
+
+Lemma good_parts v p s t :
+  good v -> split_version v = Ok (p, s, t) -> Forall nometa (split_dotus p) /\ good s /\ good t.
+Proof.
+  intros [W [p' [s' [t' [E' P]]]]] E. rewrite E in E'. inversion E'; subst p' s' t'. clear E'.
+  apply split_facts in E as (Q & Ns & Nt & _). destruct (Q wf_char W) as (Wp & Ws & Wt).
+  split; [now apply safe_components|]. split; now apply good_simple.
+Qed.
+
+Lemma good_nil : good [].
+Proof. split; [reflexivity|]. exists [], [], []. split; reflexivity. Qed.
+
+Lemma sec_ter_flip (rec : str -> str -> res comparison) s1 t1 s2 t2 :
+  (s1 <> [] -> s2 <> [] -> rec s2 s1 = flip_res (rec s1 s2)) ->
+  (s1 <> [] \/ s2 <> [] \/ t1 <> [] \/ t2 <> [] -> rec t2 t1 = flip_res (rec t1 t2)) ->
+  sec_ter rec s2 t2 s1 t1 = flip_res (sec_ter rec s1 t1 s2 t2).
+Proof.
+  intros Hs Ht. unfold sec_ter.
+  destruct s1 as [|a s1], s2 as [|b s2], t1 as [|c t1], t2 as [|d t2]; simpl; try reflexivity;
+    try (apply Ht; intuition congruence);
+    (rewrite Hs by congruence; destruct (rec (a :: s1) (b :: s2)) as [[| |]|]; try reflexivity; simpl;
+     apply Ht; intuition congruence).
+Qed.
+
+Lemma scmp_flip_aux fixed n : forall v1 v2 strict,
+  length v1 + length v2 < n -> good v1 -> good v2 ->
+  scmp fixed strict v2 v1 = flip_res (scmp fixed strict v1 v2).
+Proof.
+  induction n as [|n IH]; intros v1 v2 strict L G1 G2; [lia|].
+  rewrite (scmp_unfold fixed strict v2 v1), (scmp_unfold fixed strict v1 v2).
+  destruct G1 as [W1 [p1 [s1 [t1 [E1 P1]]]]]. destruct G2 as [W2 [p2 [s2 [t2 [E2 P2]]]]].
+  rewrite E1, E2.
+  destruct (good_parts v1 p1 s1 t1) as (C1 & Gs1 & Gt1); [split; eauto 6|assumption|].
+  destruct (good_parts v2 p2 s2 t2) as (C2 & Gs2 & Gt2); [split; eauto 6|assumption|].
+  pose proof (split_facts _ _ _ _ E1) as (_ & _ & _ & Ls1 & Lt1 & N1).
+  pose proof (split_facts _ _ _ _ E2) as (_ & _ & _ & Ls2 & Lt2 & N2).
+  assert (X : sec_ter (scmp fixed false) s2 t2 s1 t1 = flip_res (sec_ter (scmp fixed false) s1 t1 s2 t2)).
+  { apply sec_ter_flip.
+    - intros A B. specialize (Ls1 A). specialize (Ls2 B). apply IH; auto; lia.
+    - intros A.
+      assert (length t1 + length t2 < length v1 + length v2).
+      { destruct t1 as [|a t1]; [destruct t2 as [|b t2]|].
+        - simpl. destruct v1 as [|x v1]; [|simpl; lia]. destruct v2 as [|y v2]; [|simpl; lia].
+          destruct (N1 eq_refl), (N2 eq_refl). subst. intuition congruence.
+        - assert (length (b :: t2) < length v2) by (apply Lt2; congruence). simpl in *. lia.
+        - assert (length (a :: t1) < length v1) by (apply Lt1; congruence).
+          destruct t2 as [|b t2]; [simpl in *; lia|].
+          assert (length (b :: t2) < length v2) by (apply Lt2; congruence). simpl in *. lia. }
+      apply IH; auto; lia. }
+  rewrite (str_eqb_sym p2 p1). destruct (str_eqb p1 p2); [exact X|].
+  unfold cmp_primaries. rewrite (cmp_loop_flip strict _ _ C1 C2).
+  destruct (cmp_loop strict (split_dotus p1) (split_dotus p2)) as [[| |]|e]; try reflexivity.
+  simpl. destruct fixed; [exact X|reflexivity].
+Qed.
+
+Lemma scmp_flip fixed strict v1 v2 :
+  good v1 -> good v2 -> scmp fixed strict v2 v1 = flip_res (scmp fixed strict v1 v2).
+Proof. apply (scmp_flip_aux fixed (S (length v1 + length v2))). lia. Qed.
